@@ -96,6 +96,28 @@ def h_clamped_leaves(env):
         env.equal("dalpha_d%s_zero_where_alpha_is_clamped" % nm, d[0], 0)
 
 
+def h_clamped_exponent(env, level, nspin):
+    """below rhocut the length-scale exponent is the constant it has at rhocut with sigma = tau = 0, so every derivative the routine
+    returns must be exactly 0 there (a non-zero one is a potential contribution from a point the functional does not depend on)"""
+    st = env.m.settings
+    rho, sig, tau = env.arr("rho", (1,), "nonneg", hi="1"), env.arr("sig", (1,), "nonneg", hi="1e24"), env.arr("tau", (1,), "nonneg", hi="1e18")
+    a0, gm, tm = env.par("a0", "pos", hi="100"), env.par("gm", "pos", hi="100"), env.par("tm", "pos", hi="100")
+    rc = env.par("rhocut", "pos", lo="1/1000000000000", hi="1/1000")
+    env.assume(rho[0] < rc)
+    env.eps_real()
+    if level == "MGGA":
+        out = st.get_cider_exponent(rho.copy(), sig.copy(), tau.copy(), a0=a0, grad_mul=gm, tau_mul=tm, rhocut=rc, nspin=nspin)
+        ref = st.get_cider_exponent(rho.copy() * 0 + rc, sig.copy() * 0, tau.copy() * 0, a0=a0, grad_mul=gm, tau_mul=tm, rhocut=rc, nspin=nspin)
+        names = ("rho", "sigma", "tau")
+    else:
+        out = st.get_cider_exponent_gga(rho.copy(), sig.copy(), a0=a0, grad_mul=gm, rhocut=rc, nspin=nspin)
+        ref = st.get_cider_exponent_gga(rho.copy() * 0 + rc, sig.copy() * 0, a0=a0, grad_mul=gm, rhocut=rc, nspin=nspin)
+        names = ("rho", "sigma")
+    env.equal("exponent_is_its_value_at_the_cutoff", out[0][0], ref[0][0])
+    for nm, d in zip(names, out[1:]):
+        env.equal("d_exponent_d%s_zero_below_rhocut" % nm, d[0], 0)
+
+
 def h_baseline(env, name, nspin):
     bl = env.m.baselines
     X = env.arr("X", (nspin, 4, 1), "nonneg", hi="1e12")
@@ -169,6 +191,9 @@ def tasks(tier):
     for nspin in (1, 2):
         out.append(Task("semilocal/nspin%d" % nspin, h_sl, dict(nspin=nspin), max_paths=2048))
     out.append(Task("semilocal/clamped_leaves", h_clamped_leaves, {}, max_paths=64))
+    for level in ("MGGA", "GGA"):
+        for nspin in (1, 2):
+            out.append(Task("semilocal/clamped_exponent/%s/nspin%d" % (level, nspin), h_clamped_exponent, dict(level=level, nspin=nspin), max_paths=64))
     for name in ["ZERO", "ONE", "LDA_X", "NLDA_X_DAMP", "GGA_X_PBE", "GGA_X_CHACHIYO", "RHO"]:
         for nspin in (1, 2):
             out.append(Task("baseline/%s/nspin%d" % (name, nspin), h_baseline, dict(name=name, nspin=nspin)))
